@@ -12,7 +12,7 @@ from vlib.runner import Eval
 ID = "C15"
 LEVEL = "exploration"
 RULE = (
-    "Generated ELF64/ELF32 relocatables (1-5 sections with drawn names, exec and non-exec flags, code bytes from the C08 byte strategies, function- and object-typed "
+    "Generated ELF64/ELF32 relocatables, as they are or converted to another container objdump reads (COFF pe-x86-64 / pe-i386 / pe-bigobj via objcopy, regular, two-member and thin ar archives) (1-5 sections with drawn names, exec and non-exec flags, code bytes from the C08 byte strategies, function- and object-typed "
     "symbols) x a `sections` list drawn from {absent, one present, several present, present+absent mix, only absent names, a non-exec section} x 3 rules derived from the "
     "listing (a mnemonic that occurs, a 2-instruction window, an absent mnemonic). Oracle (differential): the harness runs `objdump -d -M att [-j s]... file` itself, stores "
     "stdout as text, and all_instructions_string plus the all-matches lists (full and address-only) must be identical between InputFileType.binary and "
@@ -20,7 +20,7 @@ RULE = (
     "executable sections and a sections list selecting a proper non-empty subset; distinct by (object bytes, sections list)."
 )
 ASSUMPTIONS = ["objdump 2.40 on PATH is the disassembler JASM invokes and the harness invokes", "cases run back to back in one process per shard, so stale section state from an earlier rule is exercised too"]
-FLOORS = {"sections=absent": 0.1, "sections=one": 0.1, "sections=several": 0.1, "sections=mix": 0.08, "sections=only-absent": 0.05, "sections=nonexec": 0.03, "proper-subset": 0.15}
+FLOORS = {"sections=absent": 0.1, "sections=one": 0.1, "sections=several": 0.1, "sections=mix": 0.08, "sections=only-absent": 0.05, "sections=nonexec": 0.03, "proper-subset": 0.15, "container=coff": 0.05, "container=thin-ar": 0.05, "container=ar": 0.05}
 
 
 def budget(tier):
@@ -48,7 +48,11 @@ def cases(draw):
         secs = [draw(st.sampled_from(nonexec))] if nonexec else [draw(st.sampled_from(names))]
         if draw(st.booleans()) and execs:
             secs.append(draw(st.sampled_from(execs)))
-    return {"obj": obj, "sections_kind": kind, "sections": secs, "pick": draw(st.integers(0, 10**6))}
+    out = {"obj": obj, "sections_kind": kind, "sections": secs, "pick": draw(st.integers(0, 10**6))}
+    container = draw(st.sampled_from(["elf", "elf", "elf", "elf", "coff", "bigobj", "ar", "thin-ar", "ar-two"]))
+    if container != "elf":
+        out["container"] = container
+    return out
 
 
 def strategy(tier):
@@ -58,10 +62,40 @@ def strategy(tier):
 _OKNAME = re.compile(r"^[a-z][a-z0-9]*$")
 
 
+def _contain(sc, path, case):
+    """The same object in another container objdump accepts: COFF (.obj, what objcopy / MSVC-style toolchains emit), a regular or thin
+    `ar` archive (deterministic mode: no timestamps).  -> (path, tag); the ELF itself if the tool refuses the object."""
+    import os
+    import subprocess
+
+    kind = case.get("container", "elf")
+    if kind == "elf":
+        return path, "container=elf"
+    d = os.path.dirname(path)
+    if kind in ("coff", "bigobj"):
+        target = ("pe-bigobj-x86-64" if kind == "bigobj" else "pe-x86-64") if case["obj"]["bits"] == 64 else "pe-i386"
+        out = os.path.join(d, "c15.obj")
+        r = subprocess.run(["objcopy", "-O", target, path, out], capture_output=True, text=True, cwd=d)
+    else:
+        out = os.path.join(d, "c15.a")
+        if os.path.exists(out):
+            os.unlink(out)
+        members = ["c15.o"]
+        if kind == "ar-two":
+            with open(path, "rb") as f, open(os.path.join(d, "c15b.o"), "wb") as g:
+                g.write(f.read())
+            members.append("c15b.o")
+        r = subprocess.run(["ar", "rcTD" if kind == "thin-ar" else "rcD", "c15.a", *members], capture_output=True, text=True, cwd=d)
+    if r.returncode != 0 or not os.path.exists(out):
+        return path, "container=elf-after-" + kind + "-refused"
+    return out, "container=" + kind
+
+
 def evaluate(case):
     ev = Eval()
     sc = jasm_io.scratch()
     path = sc.write("c15.o", build_object(case["obj"]))
+    path, ctag = _contain(sc, path, case)
     secs = case["sections"]
     rc, text, err = disassemble_object(path, secs)
     tpath = sc.write("c15.s", text)
@@ -82,7 +116,7 @@ def evaluate(case):
             rules.append([mns[q], mns[q + 1]])
     execs = [s[0] for s in case["obj"]["sections"] if s[2]]
     proper = secs is not None and len(execs) >= 2 and 0 < len(set(secs) & set(execs)) < len(execs)
-    ev.tags = [f"sections={case['sections_kind']}", f"elf{case['obj']['bits']}"]
+    ev.tags = [f"sections={case['sections_kind']}", f"elf{case['obj']['bits']}", ctag]
     if proper:
         ev.tags.append("proper-subset")
     if rc != 0:
@@ -109,7 +143,7 @@ def evaluate(case):
         if ev.deviations:
             break
     ev.nontrivial = proper and rc == 0
-    ev.keys = [(build_object(case["obj"]).hex()[:4000], tuple(secs) if secs is not None else None)]
+    ev.keys = [(build_object(case["obj"]).hex()[:4000], tuple(secs) if secs is not None else None, case.get("container", "elf"))]
     ev.sample = {"sections": secs, "section_names": [s[0] for s in case["obj"]["sections"]], "exec": execs, "rules": rules, "instruction_lines": len(mns), "objdump_rc": rc}
     return ev
 
